@@ -465,7 +465,7 @@ func TestC12CatchUpTraffic(t *testing.T) {
 		if err != nil || st != 200 {
 			s.fail("server does not answer after start-up: %v %d", err, st)
 		}
-		if a, b := s.S.S.VerifTryLocks(); !a || !b {
+		if a, b := serverLocksFree(s.S.S); !a || !b {
 			s.fail("a server mutex is held after start-up")
 		}
 		ev.Eval(sent)
@@ -586,7 +586,7 @@ func TestC12Shutdown(t *testing.T) {
 			if why := <-probeDone; why != "" {
 				s.fail("while a handler waits for a stalled peer: %s", why)
 			}
-			if _, b := s.S.S.VerifTryLocks(); !b {
+			if _, b := serverLocksFree(s.S.S); !b {
 				s.fail("the server-list mutex is held while a handler waits for a stalled peer")
 			}
 		}
